@@ -36,6 +36,7 @@ def run(ctx, rep):
     rep.run(RF.rule_no_write_before_reject, ctx, rep, "V5", min_entries=5)
     rep.run(RF.rule_validations_present, ctx, rep, "V6")
     rep.run(RF.rule_lookup_validated, ctx, rep, "V6")
+    rep.run(RF.rule_namespace_path_lookup, ctx, rep, "V6")
     rep.run(RG.rule_free_text_bounded, ctx, rep, "V7")
     rep.require_min("V6", 4)
     rep.run(RF.rule_locals_defined, ctx, rep, "U1", packages=("gtwrap/interface_parser", "scripts/"), min_functions=3)
